@@ -106,6 +106,12 @@ func runC01(cfg config) {
 		"Patient.name.given.aggregate($this + $total, 0)", "$total", "$index", "Patient.name.select($index)", "2147483648", "-2147483648", "-2147483649", "1 div 0", "1 mod 0", "1 / 0", "1.0 / 0.0", "1.0 div 0", "1.0 mod 0.0",
 		"(1 | 2).sum()", "repeat(children())", "descendants().descendants().count()", "Patient.descendants().repeat($this)", "trace('x')", "trace()", "now() - 1 day", "today() + 1 month", "@2020-01-31 + 1 month", "@T23:59:59 + 2 seconds",
 		"@2020 + 1000000 years", "@2020 - 3000 years", "@0001-01-01 - 1 day", "@9999-12-31 + 1 day", "@2020-02-29 + 2147483647 days", "@2020-02-29T00:00:00Z + 9999999999 milliseconds", "1 'mg' + 1 'kg'", "1 'mg' * 2 'mg'", "1 'mg' / 0 'mg'")
+	// every truncation of string literals and delimited identifiers that end in escapes
+	for _, lit := range []string{`'\uD83D\uDE00'`, `'\u00e9\n\t'`, `'a\\'`, `'\uDE00\uD83D'`, "`\\uD83D\\uDE00`", `'\uD83D\u0041'`, `'\ud83d\ude00x'`} {
+		for k := 1; k < len(lit); k++ {
+			sources = append(sources, lit[:k]+lit[len(lit)-1:], "Patient.name.given = "+lit[:k]+lit[len(lit)-1:])
+		}
+	}
 	compiled := map[string]*fhirpath.Expression{}
 	for _, s := range sources {
 		src := s
@@ -183,6 +189,15 @@ func runC01(cfg config) {
 			e, src := e, gsrc[i]
 			record("evaluate", fmt.Sprintf("Evaluate(%q) on a generated %s", src, name), func() { verifhook.Evaluate(e, []proto.Message{res}) })
 		}
+	}
+	// ---- state that builds up over calls: many distinct regular expressions, many distinct expressions ------------------
+	for k := 0; k < 150; k++ {
+		src := fmt.Sprintf("'item-%d'.matches('^item-%d$') and 'item-%d'.replaceMatches('m-%d', 'x') = 'itex'", k, k, k, k)
+		record("evaluate", fmt.Sprintf("Compile+Evaluate(%q) (distinct pattern %d)", src, k), func() {
+			if e, err := fhirpath.Compile(src); err == nil {
+				verifhook.Evaluate(e, []proto.Message{patients[0]})
+			}
+		})
 	}
 	// ---- patch: every operation with programs as paths, nil and wrongly typed values ----------------------------------
 	values := []proto.Message{nil, &dtpb.String{Value: "x"}, &dtpb.HumanName{Family: &dtpb.String{Value: "F"}}, &dtpb.Integer{Value: -1}, &dtpb.Code{Value: "male"}, &dtpb.Code{Value: "Not A Code"},
